@@ -649,7 +649,9 @@ class Extractor:
         if isinstance(op, (ast.NotEq, ast.IsNot)):
             return mk_not(self.eq(a, b))
         if isinstance(op, (ast.In, ast.NotIn)):
-            if b[0] == 'list' and all(x[0] in ('const', 'lit') for x in b[1]):
+            if b[0] == 'list' and (all(x[0] in ('const', 'lit') for x in b[1]) or (
+                    0 < len(b[1]) <= 4 and isinstance(rhs_ast, (ast.Tuple, ast.List)) and not any(x[0] == 'star' for x in b[1]))):
+                # membership in a small literal collection is a chain of equalities
                 f = mk_or(*[self.eq(a, x) for x in b[1]])
             else:
                 f = lift_ite(simp(('in', a, b)))
@@ -2143,6 +2145,10 @@ def imprecise_kinds(t, acc):
             acc.add(t[0])
         if t[0] in ('setitem', 'append', 'extend', 'delitem') and len(t) > 1 and _fresh_container(_root(t[1])):
             acc.add('local-container-state')
+            if t[0] in ('setitem', 'delitem') and _is_new(t[1]):
+                # a mapping created and keyed inside the call (a per-call memo / index): reads through it are not
+                # resolved back to what was stored
+                acc.add('local-mapping-state')
         if t[0] == 'out' and len(t) > 2 and isinstance(t[2], tuple):
             # a container created at a place (`d[k] = {'xs': []}`: ('mk', place, kind) markers) and filled through that
             # place in the same run of effects (`d[k]['xs'].extend(ys)`): create-then-fill and create-with-content
